@@ -177,19 +177,43 @@ func (f *frame) lookup(ins *ssa.Lookup) Val {
 		f.boundsCheck(idx, Term{"(str-len " + t.S + ")", sInt}, ins)
 		return sel(Term{"(str-arr " + t.S + ")", nil}, idx, bvSort(8, false))
 	}
-	// unknown map: result unconstrained
-	u.note("map lookup on a non-table map in %s: result unconstrained", f.key)
+	// a map that is not a package-level table: reads are an uninterpreted function of (map, epoch, key); every map
+	// update in the function starts a new epoch (nothing is known about the contents afterwards)
 	mt := ins.X.Type().Underlying().(*types.Map)
 	vs := u.tc.sortOf(mt.Elem())
-	v := u.declare("mapval", vs)
+	mterm, ok := x.(Term)
+	if !ok {
+		f.bad("lookup in an unsupported map value")
+	}
+	k := f.term(ins.Index)
+	get, has := u.mapFuncs(mt)
+	ep := u.ghost(f.cur, "mapEpoch", sInt)
+	v := u.define(f.key+"_"+ins.Name()+"_mv", Term{fmt.Sprintf("(%s %s %s %s)", get, mterm.S, ep.S, k.S), vs})
 	if ins.CommaOk {
-		return Tuple{v, u.declare("mapok", sBool)}
+		return Tuple{v, u.define(f.key+"_"+ins.Name()+"_mok", Term{fmt.Sprintf("(%s %s %s %s)", has, mterm.S, ep.S, k.S), sBool})}
 	}
 	return v
 }
 
+// mapFuncs declares (once per unit) the read functions of a map type.
+func (u *Unit) mapFuncs(mt *types.Map) (string, string) {
+	tn := sanitize(u.tc.typeName(mt.Key()) + "_" + u.tc.typeName(mt.Elem()))
+	get, has := "mapget_"+tn, "maphas_"+tn
+	if !u.decl[get] {
+		u.decl[get] = true
+		ks, vs := u.tc.smt(u.tc.sortOf(mt.Key())), u.tc.smt(u.tc.sortOf(mt.Elem()))
+		u.items = append(u.items, fmt.Sprintf("(declare-fun %s (Int Int %s) %s)", get, ks, vs), fmt.Sprintf("(declare-fun %s (Int Int %s) Bool)", has, ks))
+		// a key that is not present reads as the zero value
+		u.items = append(u.items, fmt.Sprintf("(assert (forall ((m Int) (e Int) (k %s)) (! (=> (not (%s m e k)) (= (%s m e k) %s)) :pattern ((%s m e k)))))", ks, has, get, u.tc.zero(u.tc.sortOf(mt.Elem())).S, get))
+	}
+	return get, has
+}
+
 func (f *frame) mapUpdate(ins *ssa.MapUpdate) {
-	f.u.note("map update in %s is not modelled (maps are opaque)", f.key)
+	u := f.u
+	u.note("map update in %s: the contents of all maps are unknown afterwards (maps are read-only functions between updates)", f.key)
+	ep := u.ghost(f.cur, "mapEpoch", sInt)
+	u.setGhost(f.cur, "mapEpoch", Term{"(+ " + ep.S + " 1)", sInt})
 }
 
 // typeTagByName resolves a Go type written in a contract (uint16, smf.MetricTicks, *bytes.Buffer) to its tag.
